@@ -82,6 +82,8 @@ type Case struct {
 	// Subsets: additional batched reads (getMany) over subsets of the stored addresses (indices into
 	// Base.Addrs): pairs with a gap, every second chunk, random subsets
 	Subsets [][]int `json:"subsets,omitempty"`
+	// SubsetOnly: run only open + the subset reads (a crash of an earlier operation must not hide them)
+	SubsetOnly bool `json:"subset_only,omitempty"`
 }
 
 // OpRes is the observed outcome of one operation.
@@ -228,6 +230,28 @@ func runCase(dir string, c Case) Result {
 			r.Info = fmt.Sprint(src.Count())
 		}))
 		if !opened {
+			return res
+		}
+		if c.SubsetOnly {
+			for si, sub := range c.Subsets {
+				var hs []hash.Hash
+				for _, ix := range sub {
+					if ix >= 0 && ix < len(c.Base.Addrs) {
+						hs = append(hs, query[ix])
+					}
+				}
+				hs = sortedByPrefix(hs)
+				add(guard("getmanysub", si, func(r *OpRes) {
+					got, _, _, err := src.GetMany(hs)
+					r.Items = itemsOf(got)
+					if err != nil {
+						errRes(r, err)
+						return
+					}
+					r.Class = "ok"
+				}))
+			}
+			guard("close", -1, func(r *OpRes) { src.Close() })
 			return res
 		}
 		for i, h := range query {
@@ -466,12 +490,13 @@ func workerMain(dir string, capBytes uint64) {
 				Mut   Mut      `json:"mut"`
 				Extra []string `json:"extra"`
 				Subs  [][]int  `json:"subsets"`
+				Only  bool     `json:"subset_only"`
 			}
 			if e := json.Unmarshal(line[5:], &rq); e != nil {
 				fmt.Fprintln(os.Stderr, "worker: bad case:", e)
 				os.Exit(3)
 			}
-			res := runCase(dir, Case{Base: bases[rq.ID], Mut: rq.Mut, Extra: rq.Extra, Subsets: rq.Subs})
+			res := runCase(dir, Case{Base: bases[rq.ID], Mut: rq.Mut, Extra: rq.Extra, Subsets: rq.Subs, SubsetOnly: rq.Only})
 			b, _ := json.Marshal(res)
 			out.Write(b)
 			out.WriteByte('\n')
